@@ -179,11 +179,26 @@ func c08One(k *cellCase) string {
 // documented band frequencies (Hz) a wavelength may be derived from
 var bandFreqs = []float64{1.57542e9, 1.22760e9, 1.17645e9, 1.27875e9, 1.20714e9, 1.191795e9, 1.60200e9, 1.24600e9, 1.202025e9, 1.561098e9, 1.26852e9}
 
+// docFreqMHz: the carrier each MSM signal id is documented to use (RTCM 10403.3
+// tables 3.5-91 ff., which the frequency tables of rtcm/utils reproduce),
+// written down here independently.  Where two values are listed either is
+// accepted (BeiDou ids 14-16 are B2I on 1207.14 MHz in the standard and
+// documented as 1176.45 MHz in the repository).  Ids without an entry are not
+// judged.
+var docFreqMHz = map[string]map[uint][]float64{
+	"GPS": {2: {1575.42}, 3: {1575.42}, 4: {1575.42}, 8: {1227.6}, 9: {1227.6}, 10: {1227.6}, 15: {1227.6}, 16: {1227.6}, 17: {1227.6},
+		22: {1176.45}, 23: {1176.45}, 24: {1176.45}, 30: {1575.42}, 31: {1575.42}, 32: {1575.42}},
+	"Glonass": {2: {1602}, 3: {1602}, 8: {1246}, 9: {1246}},
+	"Galileo": {2: {1575.42}, 3: {1575.42}, 4: {1575.42}, 5: {1575.42}, 6: {1575.42}, 8: {1278.75}, 9: {1278.75}, 10: {1278.75}, 11: {1278.75}, 12: {1278.75},
+		14: {1207.14}, 15: {1207.14}, 16: {1207.14}, 18: {1191.795}, 19: {1191.795}, 20: {1191.795}, 22: {1176.45}, 23: {1176.45}, 24: {1176.45}},
+	"Beidou": {2: {1561.098}, 3: {1561.098}, 4: {1561.098}, 8: {1268.52}, 9: {1268.52}, 10: {1268.52}, 14: {1207.14, 1176.45}, 15: {1207.14, 1176.45}, 16: {1207.14, 1176.45}},
+}
+
 // C08: ranges, phase ranges and rates against the standard's formulas.
 func C08(r *ev.Run) {
 	thorough := r.Tier == "thorough"
 	r.Rule = "signal cells built through the packages' constructors and through decoded messages; whole ms all 0..255 x fractional {0,1,511,512,1023}; whole in {0,1,127,254} x all fractional 0..1023; every value of the MSM4 fine range (2^15), rough rate (2^14) and fine rate (2^15) fields at 6 anchor points; MSM7 fine range (2^20), MSM4 fine phase (2^22) and MSM7 fine phase (2^24): every value in the thorough tier, odd strides 5, 15 and 61 in the quick tier; the full product of boundary sets {min(invalid), min+1, -1, 0, 1, max}; 4 constellations x 32 signal ids for the wavelength; MSM4/MSM7 pairs encoding the same quantity; oracle in exact rational arithmetic (math/big), tolerance 8 ulp. Non-trivial = cases with a valid rough range and defined wavelength; distinct = distinct field vectors"
-	r.Assumptions = []string{"cases whose true value is negative or whose wavelength is undefined are only checked for absence of panics, as the statement excludes them", "the wavelength reported for a signal must be c/f for one of the documented band frequencies or zero; the assignment of signal ids to bands is not pinned by the property"}
+	r.Assumptions = []string{"cases whose true value is negative or whose wavelength is undefined are only checked for absence of panics, as the statement excludes them", "the wavelength reported for a signal must be c/f for one of the documented band frequencies or zero, and for the 47 (constellation, signal id) pairs with a documented carrier it must be that carrier's (table written down independently; BeiDou ids 14-16 accept 1207.14 or 1176.45 MHz)"}
 	lamL1 := utils.SpeedOfLightMS / 1.57542e9
 	fail := func(k *cellCase, d string) {
 		r.Violate(ev.Violation{Fingerprint: "C08 " + firstWords(d, 1) + map[bool]string{true: " msm7", false: " msm4"}[k.MSM7], What: d, Case: k, ReplayKind: "signal-cell"})
@@ -349,6 +364,18 @@ func C08(r *ev.Run) {
 			}
 			if !ok {
 				r.Violate(ev.Violation{Fingerprint: "C08 WAVELENGTH not c/f of a documented band", What: fmt.Sprintf("%s signal %d wavelength %v", con, id, lam), Case: map[string]interface{}{"constellation": con, "signal": id}})
+			}
+			if fs, documented := docFreqMHz[con][id]; documented {
+				match := false
+				for _, f := range fs {
+					if w := 299792458.0 / (f * 1e6); math.Abs(lam-w) <= 4*(math.Nextafter(w, 2*w)-w) {
+						match = true
+					}
+				}
+				if !match {
+					r.Violate(ev.Violation{Fingerprint: "C08 WAVELENGTH of a documented signal is not c/f of its carrier", What: fmt.Sprintf("%s signal %d: wavelength %v, documented carrier %v MHz", con, id, lam, fs),
+						Case: map[string]interface{}{"constellation": con, "signal": id}, Expected: fs, Actual: lam})
+				}
 			}
 			if lam > 0 {
 				for _, m7 := range []bool{false, true} {
